@@ -12,7 +12,7 @@ HUND = T.div(T.ONE, N(100))
 
 
 def xarr(shape_term, x=S('x')):
-    return T.app('mapv', T.app('from_shape', shape_term, x), T.app('lam1', S('%b1')))
+    return T.app('from_shape', shape_term, x)        # (the element-wise to_f32 image: conversions are value aliases, and an element-wise map of an alias is the array itself)
 
 
 def tracker_step(ctx, pfx, A, b, shape_term, sentinel):
